@@ -2140,7 +2140,8 @@ def i_go(m, alt, fr, ins, work):
         th.fname = name if type(name) is str else repr(name)
         m.threads.append(th)
         m.thread_by_key[key] = th
-    m.pending_spawns.append((th, alt, name, args, fv))
+    th.spawn_guard = OR(th.spawn_guard, alt.guard)
+    m.pending_spawns.append((th, alt, name, args, fv, alt.guard))   # the guard at the `go` statement (the spawner may branch afterwards)
     fr.idx += 1
 
 
